@@ -36,8 +36,22 @@ def one_yield(check: Check, repo: Repo) -> None:
         var = unparse(loop.target)
         # path count through one iteration
         counts = _yield_counts(loop.body)
-        val_ok = all(isinstance(y, ast.Yield) and isinstance(y.value, ast.Await) and isinstance(y.value.value, ast.Call)
-                     and unparse(y.value.value.func) == "callback" and [unparse(a) for a in y.value.value.args] == [var] for y in in_loop)
+        def is_cb(e: ast.AST) -> bool:
+            return isinstance(e, ast.Await) and isinstance(e.value, ast.Call) and unparse(e.value.func) == "callback" \
+                and [unparse(a) for a in e.value.args] == [var]
+
+        def val(y: ast.AST) -> bool:
+            if not isinstance(y, ast.Yield) or y.value is None:
+                return False
+            if is_cb(y.value):
+                return True
+            if isinstance(y.value, ast.Name):
+                defs = [s for s in ast.walk(loop) if isinstance(s, ast.Assign) and len(s.targets) == 1
+                        and isinstance(s.targets[0], ast.Name) and s.targets[0].id == y.value.id]
+                return len(defs) == 1 and is_cb(defs[0].value) and defs[0].lineno < y.lineno
+            return False
+
+        val_ok = all(val(y) for y in in_loop)
         ok = len(yields) == len(in_loop) and counts == {1} and val_ok and not loop.orelse
         detail = f"yields per iteration path: {sorted(counts)}; outside loop: {len(yields) - len(in_loop)}; value is await callback({var}): {val_ok}"
     check.ob(rule, fn, "map_async_iterable: one `yield await callback(item)` per item", ok, detail)
@@ -295,9 +309,11 @@ def termination(check: Check, repo: Repo) -> None:
             and s.targets[0].attr == "has_next" and isinstance(s.value, ast.Constant) and s.value.value is False]
     ok = len(sets) == 1 and any(a is fn for a in ancestors(sets[0]))
     if ok:
-        # must be the final else of the isinstance chain
+        # the final else of the isinstance chain, or an explicit arm for the termination event
         p = parent(sets[0])
-        ok = isinstance(p, ast.If) and sets[0] in p.orelse
+        ok = isinstance(p, ast.If) and (sets[0] in p.orelse or (
+            sets[0] in p.body and isinstance(p.test, ast.Call) and call_name(p.test) == "isinstance"
+            and unparse(p.test.args[1]).endswith("TerminationEvent")))
     check.ob(rule, sets[0] if sets else fn, "has_next = False only in the termination branch", ok, f"{len(sets)} assignment(s)")
     wq = repo.mod("execution.incremental.work_queue")
     cons = [c for c in ast.walk(wq.tree) if isinstance(c, ast.Call) and call_name(c) == "WorkQueueTerminationEvent"]
